@@ -276,39 +276,41 @@ def evaluate(case) -> Result:
 NODE_REALM = W.NODE_REALM
 
 
+@st.composite
+def cases_strategy(draw):
+    npeers = draw(st.integers(1, 4))
+    peers = [{"realm": draw(st.sampled_from(["example", "example", "r2.example"])),
+              "default": draw(st.integers(0, 3)) == 0,
+              "state": draw(st.sampled_from(STATES))} for _ in range(npeers)]
+    napps = draw(st.integers(1, 3))
+    apps = []
+    for a in range(napps):
+        apps.append({"id": draw(st.sampled_from([4, 4, 16777238])),
+                     "peers": draw(st.lists(st.integers(0, npeers - 1), max_size=npeers, unique=True)),
+                     "realms": draw(st.sampled_from([None, None, ["r2.example"], ["extra.example"]])),
+                     "kind": draw(st.sampled_from(["basic", "threading"]))})
+    send = st.tuples(st.just("SEND"), st.integers(0, 2),
+                     st.sampled_from(["example", "example", "r2.example", "extra.example", "nowhere.example"]),
+                     st.sampled_from([2, 5, 30]), st.booleans())
+    ans = st.tuples(st.just("ANSWER"), st.integers(0, 5), st.sampled_from(["good", "good", "good", "wrong-e2e", "unknown-hbh"]))
+    adv = st.tuples(st.just("ADV"), st.sampled_from([1, 3, 6]))
+    events = draw(st.lists(st.one_of(send, send, ans, ans, adv), min_size=1, max_size=14))
+    return {"peers": peers, "apps": apps, "select": draw(st.sampled_from([None, "first", "last"])),
+            "seed": draw(st.integers(0, 7)), "yield_all": draw(st.booleans()),
+            "events": [list(e) for e in events]}
+
+
+
 def shard_main(shard, nshards, tier, scale):
     rec = Recorder(PID)
     thorough = tier == "thorough"
     shrunk = set()
     n = int((10000 if thorough else 800) * scale)
 
-    @st.composite
-    def cases(draw):
-        npeers = draw(st.integers(1, 4))
-        peers = [{"realm": draw(st.sampled_from(["example", "example", "r2.example"])),
-                  "default": draw(st.integers(0, 3)) == 0,
-                  "state": draw(st.sampled_from(STATES))} for _ in range(npeers)]
-        napps = draw(st.integers(1, 3))
-        apps = []
-        for a in range(napps):
-            apps.append({"id": draw(st.sampled_from([4, 4, 16777238])),
-                         "peers": draw(st.lists(st.integers(0, npeers - 1), max_size=npeers, unique=True)),
-                         "realms": draw(st.sampled_from([None, None, ["r2.example"], ["extra.example"]])),
-                         "kind": draw(st.sampled_from(["basic", "threading"]))})
-        send = st.tuples(st.just("SEND"), st.integers(0, 2),
-                         st.sampled_from(["example", "example", "r2.example", "extra.example", "nowhere.example"]),
-                         st.sampled_from([2, 5, 30]), st.booleans())
-        ans = st.tuples(st.just("ANSWER"), st.integers(0, 5), st.sampled_from(["good", "good", "good", "wrong-e2e", "unknown-hbh"]))
-        adv = st.tuples(st.just("ADV"), st.sampled_from([1, 3, 6]))
-        events = draw(st.lists(st.one_of(send, send, ans, ans, adv), min_size=1, max_size=14))
-        return {"peers": peers, "apps": apps, "select": draw(st.sampled_from([None, "first", "last"])),
-                "seed": draw(st.integers(0, 7)), "yield_all": draw(st.booleans()),
-                "events": [list(e) for e in events]}
-
     def body(case):
         res = evaluate(case)
         record(rec, case, res, evaluate, "events", shrunk)
-    hyp.run_given(cases(), body, n, derive_seed(PID, "rand", shard), rec=rec)
+    hyp.run_given(cases_strategy(), body, n, derive_seed(PID, "rand", shard), rec=rec)
     return rec.dump()
 
 
